@@ -1763,8 +1763,21 @@ class SpaceUpdater(SharedSpaceOperations):
                 Instruction(self._update_derived_space, (v,)))
         self._update_tree_refs(node)
 
-        self._instructions.execute()
+        self._execute_or_restore(node)
         self._update_manager()
+
+    def _execute_or_restore(self, node):
+        """Execute instructions. If it fails, derive again by the old graph"""
+        try:
+            self._instructions.execute()
+        except BaseException:
+            updater = SpaceUpdater(self.manager)    # has the graph as it was
+            for v in updater._graph.ordered_subs(node):
+                updater._instructions.append(
+                    Instruction(updater._update_derived_space, (v,)))
+            updater._update_tree_refs(node)
+            updater._instructions.execute()
+            raise
 
     def _update_tree_refs(self, node):
         # References of the child spaces of a re-derived space may be bound
@@ -1794,7 +1807,7 @@ class SpaceUpdater(SharedSpaceOperations):
             )
         self._update_tree_refs(node)
 
-        self._instructions.execute()
+        self._execute_or_restore(node)
         self._update_manager()
 
     def del_defined_space(self, space):
